@@ -57,5 +57,6 @@ func init() {
 	checks["C17"] = c17.Run
 	workers["c17"] = c17.Worker
 	checks["C19"] = c19.Run
+	workers["c19"] = c19.Worker
 	checks["C20"] = c20.Run
 }
